@@ -1,6 +1,6 @@
 """C02 — the verifier enforces exactly the Bulletproofs+ relation."""
 from lib.common import *
-from lib import gen, sessions
+from lib import gen, sessions, forge
 
 TRUSTED = [
     "Coq 8.16.1 kernel and vm_compute; Bignums.BigZ (primitive 63-bit integers) only in the executable instance",
@@ -110,11 +110,18 @@ def run(run: Run):
     run.run_audit()
     specs = gen_specs(run)
     sessions.run_sessions(run, specs, oracle, relevant=1 | 4 | 8 | 32)
+    # an independent prover for the published protocol (tools/lib/forge.py) against the library's verifier: its honest proofs must be accepted,
+    # its dishonest ones (non-binary digit, value hidden behind an oversized promise, surplus pair as a free cross-term) refused; the final
+    # proofs are also evaluated by the Coq model
+    jobs = forge.standard_jobs(run.rng, run.tier == "quick")
+    fspecs = forge.forge_all(run.rng, jobs, prefix="c02f")
+    forge.report_incomplete(run, jobs)
+    sessions.run_sessions(run, fspecs, lambda r, s, o: forge.oracle(r, s, o), relevant=1 | 4 | 8 | 32, name="c02f")
     return run.finish(
         "proof",
         "honest proofs on the configuration lattice, single-element mutations of them (scalars, points, round structure) and statements shifted "
         "under an unchanged proof; each verification is compared with the Coq model scalar by scalar (G_i, H_i, commitments, H, Gb_k, A, A1, B, L_j, R_j) "
-        "and by verdict; a case is distinct by (bits, m, T, case kind, outcome)",
+        "and by verdict; proofs made by an INDEPENDENT prover of the published protocol (challenges read off the verifier under test): honest ones must be accepted, dishonest ones (non-binary digit, oversized promise, surplus pair as free cross-term) refused, all evaluated by the model too; a case is distinct by (bits, m, T, case kind, outcome)",
         ["challenges and batch weights are taken from the implementation's transcript (oracle outputs); the model recomputes everything downstream",
          "the final product's zero-ness is evaluated by the harness's free-module arithmetic on the logged scalars, which the model has cross-checked"],
         TRUSTED)
